@@ -254,6 +254,11 @@ pub fn gen_plan(cx: &mut Ctx, o: &PlanOpts) -> Plan {
             }
         }
     }
+    let bufsize = if all.iter().any(|r| r.content.len() + usize::from(r.padding) > 65535 || r.content.len() == 65535) && cx.ch.chance(1, 2) {
+        // a buffer that can hold a maximum-size record whole (stale records skipped by the next request parser)
+        cx.probe("buffer_holds_whole_huge_record");
+        cx.ch.one_of(&[70000usize, 131072])
+    } else { bufsize };
     let desc = {
         let recs: Vec<String> = all.iter().take(36).map(Rec::short).collect();
         format!("k={k} bufsize={bufsize} max_conns={max_conns} closed_loop={} segs={:?} records=[{}]", o.closed_loop,
@@ -562,6 +567,7 @@ async fn handler_seq(req: &mut Req<'_>, st: &mut HState) -> io::Result<ExitStatu
     let use_fill = st.chance(1, 2);
     let mut writes = 0usize;
     let mut seq = 0usize;
+    let mut abandoned = false;
     for _op in 0..max_ops {
         let n = st.streams.len();
         let at_eof = st.active.map_or(true, |i| st.with(|_, inv| inv.eof[i]));
@@ -574,13 +580,35 @@ async fn handler_seq(req: &mut Req<'_>, st: &mut HState) -> io::Result<ExitStatu
         let w_write = if writes < 4 { 3 } else { 0 };
         let w_ret = if read_plan == 0 && can_read && !at_eof { 0 } else if read_plan == 1 { 2 } else { 4 };
         let w_probe = if readers { 3 } else { 0 };
-        let ws = [w_read, w_fill, w_adv, w_write, w_ret.max(if w_read + w_fill + w_adv + w_write == 0 { 1 } else { 0 }), w_probe];
+        // a read that is polled once and abandoned if not ready (timeout / select! / now_or_never in a real handler)
+        let w_try = if can_read && read_plan != 2 { 1 } else { 0 };
+        // after an abandoned read the request may still hold the output lock (kept "until a subsequent call wrote a
+        // sufficient number of bytes"; reads served from buffered data never get there): a writer would wait on the
+        // handler's own request, so this handler does not write any more
+        let w_write = if abandoned { 0 } else { w_write };
+        let ws = [w_read, w_fill, w_adv, w_write, w_ret.max(if w_read + w_fill + w_adv + w_write == 0 { 1 } else { 0 }), w_probe, w_try];
         match st.weighted(&ws) {
             0 => {
                 let len = match st.weighted(&[4, 1, 2, 2, 1]) { 0 => st.range(1, 64), 1 => 0, 2 => 1, 3 => st.range(64, 5000), _ => 70000 };
                 h_read(req, st, len).await?;
             }
             1 => { h_fill(req, st).await?; }
+            6 => {
+                let len = st.range(1, 64);
+                let mut buf = vec![0u8; len];
+                st.ev("h_try_read", len as u64, 0);
+                let r = poll_fn(|cx| std::task::Poll::Ready(Pin::new(&mut *req).poll_read(cx, &mut buf))).await;
+                match r {
+                    std::task::Poll::Ready(Ok(n)) => { st.record_read(n, &buf, len); }
+                    std::task::Poll::Ready(Err(e)) => {
+                        let k = kind_name(&e);
+                        st.with(|w, inv| inv.errors.push((k, "read".into(), w.read_pos)));
+                        return Err(e);
+                    }
+                    std::task::Poll::Pending => { st.probe("read_abandoned_while_pending"); abandoned = true; }
+                }
+                st.sample_writeable(req);
+            }
             2 => {
                 let cur = st.active.expect("active");
                 let next = cur + 1;
@@ -1046,8 +1074,8 @@ pub const F_TRANSPORT: &[&str] = &["short_read", "read_pending_nodata", "read_pe
 pub const F_FLUSH: &[&str] = &["flush_pending", "spurious_child_poll"];
 pub const F_SPURIOUS: &[&str] = &["spurious_poll"];
 pub const F_INJECT: &[&str] = &["read_error", "eof_injected", "write_error", "zero_write"];
-pub const P_BASE: &[&str] = &["read_filled_buffer", "write_cut_in_header", "write_cut_at_seam", "write_cut_in_padding", "requests_2plus", "buffer_24"];
-pub const P_C07: &[&str] = &["keep_conn_reuse", "no_keep_conn_close", "handler_left_input_unread"];
+pub const P_BASE: &[&str] = &["buffer_holds_whole_huge_record", "read_filled_buffer", "write_cut_in_header", "write_cut_at_seam", "write_cut_in_padding", "requests_2plus", "buffer_24"];
+pub const P_C07: &[&str] = &["read_abandoned_while_pending", "keep_conn_reuse", "no_keep_conn_close", "handler_left_input_unread"];
 #[allow(dead_code)]
 pub const D2_FAULTS: &[&str] = &[
     "short_read", "read_pending_nodata", "read_pending_withdata", "short_write", "write_pending", "spurious_poll",
